@@ -620,11 +620,13 @@ def _div(a, b):
     if c.decide(b == 0):
         if SNum.python_division:
             raise ZeroDivisionError("division by zero")
+        import numpy as np  # numpy float scalars: IEEE semantics (no ZeroDivisionError) in later concrete arithmetic
+
         if c.decide(a == 0):
-            return math.nan
+            return np.float64(math.nan)
         if c.decide(a > 0):
-            return math.inf
-        return -math.inf
+            return np.float64(math.inf)
+        return np.float64(-math.inf)
     return SReal(a / b)
 
 
